@@ -61,16 +61,31 @@ AddrAcc(v, lay, x, pos, acc) ==
          [] OTHER          -> AddrAcc(v, lay, x + 1, pos + Len(it.b), acc)
 Addrs(v, lay) == AddrAcc(v, lay, 1, Base(lay), [count |-> 0, info |-> 0, body |-> [i \in 1..Len(v) |-> 0], end |-> 0])
 
-\* err = [kind |-> "none" | "nocount" | "noinfo" | "noname" | "end" | "start", j |-> record position]
+(* err = [kind |-> "none" | "nocount" | "noinfo" | "noname" | "end" | "start" | "words" | "wrapsum", j |-> record position, ...]
+   "end" / "start"  a range ending one byte past / starting past the end of the data region;
+   "words"          [.., ow |-> offset word, sw |-> size word]: 32-bit field values anywhere in the u32 range,
+                    given as 4 bytes, most significant first (<<>> = leave the field as it is).  TLC integers are
+                    32 bit, so such values never become numbers: they go into the data as bytes and Extract
+                    classifies them through Rd32 (which yields Huge from 2^31 on);
+   "wrapsum"        size word = 2^32 - (absolute start address): start + size is 0 modulo 2^32 although the
+                    range leaves the data region by almost 4 GiB. *)
 NoErr == [kind |-> "none", j |-> 0]
+\* the 32-bit two's complement of d (1 <= d <= 65535), most significant byte first
+NegWord(d) == <<255, 255, (65536 - d) \div 256, (65536 - d) % 256>>
 RecBytes(v, lay, ad, err, j) ==
   LET f == lay.recs[j]
       len == Len(BodyOf(v[f]))
-      size == IF err.kind = "end" /\ err.j = j THEN (ad.end - ad.body[f]) + 1          \* one byte past the region
-              ELSE IF err.kind = "start" /\ err.j = j /\ len = 0 THEN 1 ELSE len
-      off == IF err.kind = "start" /\ err.j = j THEN (ad.end - Base(lay)) + 3           \* starts past the region
+      hit == err.j = j
+      size == IF err.kind = "end" /\ hit THEN (ad.end - ad.body[f]) + 1                  \* one byte past the region
+              ELSE IF err.kind \in {"start", "words"} /\ hit /\ len = 0 THEN 1            \* the planted range is not empty
+              ELSE len
+      off == IF err.kind = "start" /\ hit THEN (ad.end - Base(lay)) + 3                   \* starts past the region
              ELSE ad.body[f] - Base(lay)
-  IN Zeros(4) \o U32(f - 1, "le") \o U32(size, "le") \o U32(off, "le")
+      sizeW == IF err.kind = "words" /\ hit /\ err.sw # <<>> THEN Word32(err.sw, "le")
+               ELSE IF err.kind = "wrapsum" /\ hit THEN Word32(NegWord(IF ad.body[f] = 0 THEN 1 ELSE ad.body[f]), "le")
+               ELSE U32(size, "le")
+      offW == IF err.kind = "words" /\ hit /\ err.ow # <<>> THEN Word32(err.ow, "le") ELSE U32(off, "le")
+  IN Zeros(4) \o U32(f - 1, "le") \o sizeW \o offW
 
 \* pass 2: bytes
 RECURSIVE DataAcc(_, _, _, _, _, _)
